@@ -496,6 +496,50 @@ func (r *run) call(fr *frame, cur *node, x *ssa.Call) *node {
 			return after
 		}
 	}
+	// a function-typed parameter with a callback specification in the enclosing function's contract
+	if p, isParam := common.Value.(*ssa.Parameter); isParam && fr.fc != nil && fr.fc.Callbacks[p.Name()] != nil {
+		cb := fr.fc.Callbacks[p.Name()]
+		c := r.C()
+		pkg := r.E.pkgRefOf(fr.fn)
+		en := fr.loopEnvAt(cur, pkg)
+		for i, a := range args {
+			en.vars[fmt.Sprintf("arg%d", i)] = TV{V: a, T: common.Args[i].Type()}
+		}
+		for k, cl := range cb.Requires {
+			for j, cj := range en.evalGoalParts(cl.Expr) {
+				name := fmt.Sprintf("%scallback[%s.%d", fr.path, p.Name(), k)
+				if j > 0 {
+					name += fmt.Sprintf(".c%d", j)
+				}
+				r.oblige("requires", name+"]", cur.alive, cj, "callback "+p.Name()+" requires "+cl.Text)
+			}
+		}
+		after := fr.syntheticAfter(cur)
+		if cb.Havoc {
+			for i, a := range args {
+				if pv, ok := a.(PtrV); ok {
+					if _, isPtr := common.Args[i].Type().Underlying().(*types.Pointer); isPtr {
+						v, as := r.freshValue("callback."+p.Name(), pv.L.T)
+						for _, f := range as {
+							r.assume(c.True(), f)
+						}
+						r.store(after, pv.L, v)
+					}
+				}
+				if iv, ok := a.(IfaceV); ok && iv.Concrete != nil {
+					if pv, ok := iv.Concrete.(PtrV); ok {
+						v, as := r.freshValue("callback."+p.Name(), pv.L.T)
+						for _, f := range as {
+							r.assume(c.True(), f)
+						}
+						r.store(after, pv.L, v)
+					}
+				}
+			}
+		}
+		after.vals[x] = r.freshResults("callback."+p.Name(), common.Signature().Results())
+		return after
+	}
 	// unknown function value: pure uninterpreted application (stated assumption)
 	if r.assumedContracts != nil {
 		r.assumedContracts["calls through function values are pure (results are a function of the scalar arguments)"] = true
@@ -1186,6 +1230,10 @@ func (fr *frame) runInvariantLoop(l *loop, spec *contract.LoopSpec, iter []int) 
 		for _, a := range as {
 			r.assume(c.True(), a)
 		}
+		// every reference that exists at the loop head was allocated before it
+		for _, ref := range refsOf(v) {
+			r.assume(c.True(), c.Op("<", nil, ref, hdr.getPV("$alloc", smt.Int)))
+		}
 	}
 	en := fr.loopEnv(l, hdr, pkg)
 	for _, cl := range spec.Invariants {
@@ -1312,6 +1360,40 @@ func (fr *frame) loopEnv(l *loop, at *node, pkg *pkgRef) *env {
 	return en
 }
 
+// loopEnvAt: expression environment at an arbitrary point of the function (parameters; local variables by
+// their source name as visible at the current block).
+func (fr *frame) loopEnvAt(at *node, pkg *pkgRef) *env {
+	en := &env{r: fr.r, pkg: pkg, vars: map[string]TV{}, cur: at, old: fr.entryNode(), fr: fr}
+	root := fr.nodes[iterKey(fr.fn.Blocks[0], nil)]
+	if root != nil {
+		for _, p := range fr.fn.Params {
+			if v, ok := root.vals[p]; ok {
+				en.vars[p.Name()] = TV{V: v, T: p.Type()}
+			}
+		}
+		for _, fv := range fr.fn.FreeVars {
+			if v, ok := root.vals[fv]; ok {
+				en.vars[fv.Name()] = TV{V: v, T: fv.Type()}
+			}
+		}
+	}
+	en.lazy = func(name string) (TV, bool) {
+		if at.blk == nil {
+			return TV{}, false
+		}
+		v := fr.r.E.namedValueAt(fr.fn, name, at.blk)
+		if v == nil {
+			return TV{}, false
+		}
+		x := at.lookup(v)
+		if x == nil {
+			return TV{}, false
+		}
+		return TV{V: x, T: v.Type()}, true
+	}
+	return en
+}
+
 func (fr *frame) entryNode() *node {
 	if fr.fn == nil {
 		return nil
@@ -1337,7 +1419,10 @@ func (e *Engine) namedValueAt(fn *ssa.Function, name string, b *ssa.BasicBlock) 
 						_ = id
 					}
 					if x.IsAddr {
-						continue
+						// an addressable local: the name denotes its address (contracts write v.f for structs, *v for scalars)
+						if _, isAlloc := x.X.(*ssa.Alloc); !isAlloc {
+							continue
+						}
 					}
 					if ident := identName(x); ident != "" {
 						names[ident] = append(names[ident], x.X)
